@@ -53,7 +53,7 @@ func init() {
 	}
 }
 
-type sup struct {
+type startupSup struct {
 	t   *tr
 	pkg *packages.Package
 	// role ("Ctx.start" | "Ctx.run") of context objects and of cancel-function objects / handle fields
@@ -62,19 +62,19 @@ type sup struct {
 	fieldRole  map[string]string // field of poolAsyncRunHandle -> role (ctx or cancel)
 }
 
-func (x *sup) fail(n ast.Node, format string, a ...any) string {
+func (x *startupSup) fail(n ast.Node, format string, a ...any) string {
 	msg := fmt.Sprintf("%s: unsupported (startup area): %s", x.pkg.Fset.Position(n.Pos()), fmt.Sprintf(format, a...))
 	x.t.errs = append(x.t.errs, msg)
 	return "(UNSUPPORTED)"
 }
 
-func (x *sup) src(n ast.Node) string {
+func (x *startupSup) src(n ast.Node) string {
 	var b bytes.Buffer
 	_ = printer.Fprint(&b, x.pkg.Fset, n)
 	return strings.Join(strings.Fields(b.String()), " ")
 }
 
-func suFindMethod(p *packages.Package, recvType, name string) *ast.FuncDecl {
+func startupFindMethod(p *packages.Package, recvType, name string) *ast.FuncDecl {
 	for _, f := range p.Syntax {
 		for _, d := range f.Decls {
 			fd, ok := d.(*ast.FuncDecl)
@@ -93,7 +93,7 @@ func suFindMethod(p *packages.Package, recvType, name string) *ast.FuncDecl {
 	return nil
 }
 
-func (x *sup) obj(e ast.Expr) types.Object {
+func (x *startupSup) obj(e ast.Expr) types.Object {
 	if id, ok := e.(*ast.Ident); ok {
 		return x.pkg.TypesInfo.ObjectOf(id)
 	}
@@ -101,7 +101,7 @@ func (x *sup) obj(e ast.Expr) types.Object {
 }
 
 // isLog: a call on a *zap.Logger value (p.log.Info(…), log.With(…), ah.log.Debug(…)) or a statement built on one
-func (x *sup) isLogCall(e ast.Expr) bool {
+func (x *startupSup) isLogCall(e ast.Expr) bool {
 	c, ok := e.(*ast.CallExpr)
 	if !ok {
 		return false
@@ -118,7 +118,7 @@ func (x *sup) isLogCall(e ast.Expr) bool {
 	return s == "*go.uber.org/zap.Logger" || s == "*go.uber.org/zap/zapcore.CheckedEntry"
 }
 
-func hasReturn(n ast.Node) bool {
+func startupHasReturn(n ast.Node) bool {
 	found := false
 	ast.Inspect(n, func(m ast.Node) bool {
 		if _, ok := m.(*ast.FuncLit); ok {
@@ -133,7 +133,7 @@ func hasReturn(n ast.Node) bool {
 }
 
 // paramObjs returns the objects of all parameters of fd, in order
-func (x *sup) paramObjs(ft *ast.FuncType) []types.Object {
+func (x *startupSup) paramObjs(ft *ast.FuncType) []types.Object {
 	var out []types.Object
 	for _, f := range ft.Params.List {
 		for _, n := range f.Names {
@@ -145,8 +145,8 @@ func (x *sup) paramObjs(ft *ast.FuncType) []types.Object {
 
 // ---------------------------------------------------------------- runAsync: roles
 
-func (x *sup) roles(b *strings.Builder) (startArgs []string, builderArgs [2]string, ok bool) {
-	fd := suFindMethod(x.pkg, "instancePool", "runAsync")
+func (x *startupSup) roles(b *strings.Builder) (startArgs []string, builderArgs [2]string, ok bool) {
+	fd := startupFindMethod(x.pkg, "instancePool", "runAsync")
 	if fd == nil {
 		x.t.errs = append(x.t.errs, "method (*instancePool).runAsync not found")
 		return nil, builderArgs, false
@@ -260,8 +260,8 @@ func (x *sup) roles(b *strings.Builder) (startArgs []string, builderArgs [2]stri
 
 // ---------------------------------------------------------------- startInstances
 
-type siTr struct {
-	x        *sup
+type startupSiTr struct {
+	x        *startupSup
 	ctxOf    map[types.Object]string // parameter object -> role
 	started  types.Object
 	errObj   types.Object
@@ -272,7 +272,7 @@ type siTr struct {
 	loopDef  string
 }
 
-func (s *siTr) intExpr(e ast.Expr) string {
+func (s *startupSiTr) intExpr(e ast.Expr) string {
 	x := s.x
 	switch v := e.(type) {
 	case *ast.ParenExpr:
@@ -302,7 +302,7 @@ func (s *siTr) intExpr(e ast.Expr) string {
 	return x.fail(e, "integer expression %s", x.src(e))
 }
 
-func (s *siTr) ctxExpr(e ast.Expr) string {
+func (s *startupSiTr) ctxExpr(e ast.Expr) string {
 	if r, ok := s.ctxOf[s.x.obj(e)]; ok {
 		return r
 	}
@@ -310,7 +310,7 @@ func (s *siTr) ctxExpr(e ast.Expr) string {
 }
 
 // waitCall recognises `waiter.Wait(c)` and returns the role of c
-func (s *siTr) waitCall(e ast.Expr) (string, bool) {
+func (s *startupSiTr) waitCall(e ast.Expr) (string, bool) {
 	c, ok := e.(*ast.CallExpr)
 	if !ok || len(c.Args) != 1 {
 		return "", false
@@ -322,7 +322,7 @@ func (s *siTr) waitCall(e ast.Expr) (string, bool) {
 	return s.ctxExpr(c.Args[0]), true
 }
 
-func (s *siTr) boolExpr(e ast.Expr) string {
+func (s *startupSiTr) boolExpr(e ast.Expr) string {
 	x := s.x
 	switch v := e.(type) {
 	case *ast.ParenExpr:
@@ -346,10 +346,10 @@ func (s *siTr) boolExpr(e ast.Expr) string {
 	return x.fail(e, "condition %s", x.src(e))
 }
 
-const siRes = "{ acts := acts, started := started, err := err, returned := %s }"
+const startupSiRes = "{ acts := acts, started := started, err := err, returned := %s }"
 
 // goStmt: go func() { runRes <- instanceRunResult{ID, V} }()
-func (s *siTr) goStmt(g *ast.GoStmt) string {
+func (s *startupSiTr) goStmt(g *ast.GoStmt) string {
 	x := s.x
 	fl, ok := g.Call.Fun.(*ast.FuncLit)
 	if !ok || len(g.Call.Args) != 0 || len(fl.Body.List) != 1 {
@@ -401,7 +401,7 @@ func (s *siTr) goStmt(g *ast.GoStmt) string {
 }
 
 // simple translates one statement without control flow into `let` lines; ok=false if it is not such a statement
-func (s *siTr) simple(st ast.Stmt, ind string) (string, bool) {
+func (s *startupSiTr) simple(st ast.Stmt, ind string) (string, bool) {
 	x := s.x
 	switch v := st.(type) {
 	case *ast.IncDecStmt:
@@ -469,7 +469,7 @@ func (s *siTr) simple(st ast.Stmt, ind string) (string, bool) {
 
 // seq translates a statement list that ends the function. inLoop: we are in the body of the Wait loop; after the body
 // comes `post` and the recursive call.
-func (s *siTr) seq(stmts []ast.Stmt, ind string, tail func(ind string) string) string {
+func (s *startupSiTr) seq(stmts []ast.Stmt, ind string, tail func(ind string) string) string {
 	x := s.x
 	if len(stmts) == 0 {
 		return tail(ind)
@@ -481,7 +481,7 @@ func (s *siTr) seq(stmts []ast.Stmt, ind string, tail func(ind string) string) s
 	switch v := st.(type) {
 	case *ast.ReturnStmt:
 		if len(v.Results) == 0 {
-			return ind + fmt.Sprintf(siRes, "true") + "\n"
+			return ind + fmt.Sprintf(startupSiRes, "true") + "\n"
 		}
 	case *ast.AssignStmt:
 		// ok := waiter.Wait(c)
@@ -489,7 +489,7 @@ func (s *siTr) seq(stmts []ast.Stmt, ind string, tail func(ind string) string) s
 			if role, isWait := s.waitCall(v.Rhs[0]); isWait {
 				id := v.Lhs[0].(*ast.Ident)
 				s.boolVars[x.obj(id)] = true
-				return ind + "match waits with\n" + ind + "| [] => " + fmt.Sprintf(siRes, "false") + "\n" + ind + "| w :: waits =>\n" +
+				return ind + "match waits with\n" + ind + "| [] => " + fmt.Sprintf(startupSiRes, "false") + "\n" + ind + "| w :: waits =>\n" +
 					ind + "let " + mangle(id.Name) + " : Bool := w " + role + "\n" + s.seq(rest, ind, tail)
 			}
 		}
@@ -510,7 +510,7 @@ func (s *siTr) seq(stmts []ast.Stmt, ind string, tail func(ind string) string) s
 				var d strings.Builder
 				d.WriteString("/-- regenerated from `startInstances`: the `for ; waiter.Wait(…); … { … }` loop and the statements after it -/\n")
 				d.WriteString("def startInstances_loop (firstOk : Bool) (acts : List Act) (started : Int) (err : StartErr) : List (Ctx → Bool) → StartRes\n")
-				d.WriteString("  | [] => " + fmt.Sprintf(siRes, "false") + "\n")
+				d.WriteString("  | [] => " + fmt.Sprintf(startupSiRes, "false") + "\n")
 				d.WriteString("  | w :: waits =>\n    if w " + role + " then\n")
 				d.WriteString(s.seq(append(append([]ast.Stmt{}, v.Body.List...), post...), "      ", func(ind string) string {
 					return ind + "startInstances_loop firstOk acts started err waits\n"
@@ -525,8 +525,8 @@ func (s *siTr) seq(stmts []ast.Stmt, ind string, tail func(ind string) string) s
 	return ind + x.fail(st, "statement %s", x.src(st)) + "\n"
 }
 
-func (x *sup) startInstances(b *strings.Builder, startArgs []string) {
-	fd := suFindMethod(x.pkg, "instancePool", "startInstances")
+func (x *startupSup) startInstances(b *strings.Builder, startArgs []string) {
+	fd := startupFindMethod(x.pkg, "instancePool", "startInstances")
 	if fd == nil {
 		x.t.errs = append(x.t.errs, "method (*instancePool).startInstances not found")
 		return
@@ -536,7 +536,7 @@ func (x *sup) startInstances(b *strings.Builder, startArgs []string) {
 		x.fail(fd, "startInstances signature")
 		return
 	}
-	s := &siTr{x: x, ctxOf: map[types.Object]string{ps[0]: startArgs[0], ps[1]: startArgs[1]}, boolVars: map[types.Object]bool{}, intVars: map[types.Object]bool{}}
+	s := &startupSiTr{x: x, ctxOf: map[types.Object]string{ps[0]: startArgs[0], ps[1]: startArgs[1]}, boolVars: map[types.Object]bool{}, intVars: map[types.Object]bool{}}
 	// named results (started int, err error)
 	for _, f := range fd.Type.Results.List {
 		for _, n := range f.Names {
@@ -572,7 +572,7 @@ func (x *sup) startInstances(b *strings.Builder, startArgs []string) {
 
 // ---------------------------------------------------------------- runNewInstance / newInstance
 
-func (x *sup) passThrough(b *strings.Builder) {
+func (x *startupSup) passThrough(b *strings.Builder) {
 	// runNewInstance(ctx, log, poolID, id, deps)
 	fd := findFunc(x.pkg, "runNewInstance")
 	if fd == nil {
@@ -680,8 +680,8 @@ func (x *sup) passThrough(b *strings.Builder) {
 
 // ---------------------------------------------------------------- pool actions (awaitRun, finish callback)
 
-type paTr struct {
-	x *sup
+type startupPaTr struct {
+	x *startupSup
 	// call source text -> Lean list of PoolAct
 	calls func(c *ast.CallExpr) (string, bool)
 	// condition atoms
@@ -690,7 +690,7 @@ type paTr struct {
 	doneRole func(e ast.Expr) (string, bool)
 }
 
-func (p *paTr) cond(e ast.Expr) string {
+func (p *startupPaTr) cond(e ast.Expr) string {
 	x := p.x
 	if a, ok := p.atom(e); ok {
 		return a
@@ -714,7 +714,7 @@ func (p *paTr) cond(e ast.Expr) string {
 }
 
 // acts translates a statement list into a Lean `List PoolAct` term
-func (p *paTr) acts(stmts []ast.Stmt) string {
+func (p *startupPaTr) acts(stmts []ast.Stmt) string {
 	x := p.x
 	var parts []string
 	for i, st := range stmts {
@@ -806,8 +806,8 @@ done:
 	return "(" + strings.Join(parts, " ++ ") + ")"
 }
 
-func (x *sup) awaitRun(b *strings.Builder) {
-	fd := suFindMethod(x.pkg, "runAwaitHandle", "awaitRun")
+func (x *startupSup) awaitRun(b *strings.Builder) {
+	fd := startupFindMethod(x.pkg, "runAwaitHandle", "awaitRun")
 	if fd == nil {
 		x.t.errs = append(x.t.errs, "method (*runAwaitHandle).awaitRun not found")
 		return
@@ -830,7 +830,7 @@ func (x *sup) awaitRun(b *strings.Builder) {
 		x.fail(fd, "case res := <-%s.runRes not found", recv)
 		return
 	}
-	p := &paTr{x: x}
+	p := &startupPaTr{x: x}
 	p.atom = func(e ast.Expr) (string, bool) {
 		s := x.src(e)
 		switch s {
@@ -892,8 +892,300 @@ func (x *sup) awaitRun(b *strings.Builder) {
 	b.WriteString("def runCancelCallers : List String := [" + strings.Join(callers, ", ") + "]\n\n")
 }
 
-func (x *sup) finishCallback(b *strings.Builder, builderArgs [2]string) {
-	fd := suFindMethod(x.pkg, "instancePool", "buildNewInstanceSchedule")
+// ---------------------------------------------------------------- the counters of the await loop
+
+// startupCaseOf finds `case <res> := <-<recv>.<ch>:` in fd
+func (x *startupSup) startupCaseOf(fd *ast.FuncDecl, recv, ch string) (*ast.CommClause, string) {
+	var clause *ast.CommClause
+	resName := ""
+	ast.Inspect(fd.Body, func(n ast.Node) bool {
+		cc, ok := n.(*ast.CommClause)
+		if !ok || cc.Comm == nil {
+			return true
+		}
+		if as, isAs := cc.Comm.(*ast.AssignStmt); isAs && len(as.Rhs) == 1 && x.src(as.Rhs[0]) == "<-"+recv+"."+ch {
+			clause = cc
+			resName = x.src(as.Lhs[0])
+		}
+		return true
+	})
+	return clause, resName
+}
+
+// startupAwaitCond translates the "all finished" condition over the counters of the handle
+func (x *startupSup) startupAwaitCond(e ast.Expr, recv string, local map[string]ast.Expr) string {
+	switch v := e.(type) {
+	case *ast.ParenExpr:
+		return x.startupAwaitCond(v.X, recv, local)
+	case *ast.Ident:
+		if d, ok := local[v.Name]; ok {
+			return x.startupAwaitCond(d, recv, local)
+		}
+	case *ast.UnaryExpr:
+		if v.Op == token.NOT {
+			return "(!" + x.startupAwaitCond(v.X, recv, local) + ")"
+		}
+	case *ast.CallExpr:
+		if x.src(v) == recv+".isStartFinished()" {
+			return "a.startFinished"
+		}
+	case *ast.BinaryExpr:
+		switch v.Op {
+		case token.LAND:
+			return "(" + x.startupAwaitCond(v.X, recv, local) + " && " + x.startupAwaitCond(v.Y, recv, local) + ")"
+		case token.LOR:
+			return "(" + x.startupAwaitCond(v.X, recv, local) + " || " + x.startupAwaitCond(v.Y, recv, local) + ")"
+		case token.GEQ, token.LEQ, token.LSS, token.GTR, token.EQL, token.NEQ:
+			op := map[token.Token]string{token.GEQ: "≥", token.LEQ: "≤", token.LSS: "<", token.GTR: ">", token.EQL: "=", token.NEQ: "≠"}[v.Op]
+			return "decide (" + x.startupAwaitInt(v.X, recv) + " " + op + " " + x.startupAwaitInt(v.Y, recv) + ")"
+		}
+	}
+	return x.fail(e, "all-finished condition %s", x.src(e))
+}
+
+func (x *startupSup) startupAwaitInt(e ast.Expr, recv string) string {
+	switch v := e.(type) {
+	case *ast.ParenExpr:
+		return x.startupAwaitInt(v.X, recv)
+	case *ast.BasicLit:
+		if v.Kind == token.INT {
+			return "(" + v.Value + " : Int)"
+		}
+	case *ast.SelectorExpr:
+		switch x.src(v) {
+		case recv + ".awaitedInstances":
+			return "a.awaited"
+		case recv + ".startedInstances":
+			return "a.started"
+		}
+	case *ast.BinaryExpr:
+		if v.Op == token.ADD || v.Op == token.SUB {
+			return "(" + x.startupAwaitInt(v.X, recv) + " " + v.Op.String() + " " + x.startupAwaitInt(v.Y, recv) + ")"
+		}
+	}
+	return x.fail(e, "counter expression %s", x.src(e))
+}
+
+// startupCaseUpdate reads the top-level statements of a case of the await loop: the update of the counters (as a Lean record
+// update with the fields in a fixed order, so that reordering independent assignments changes nothing), the pool actions of its `if`
+// statements, and whether `checkAllInstancesAreFinished()` is called, unconditionally, after the counters have been updated
+func (x *startupSup) startupCaseUpdate(cc *ast.CommClause, recv, resName, startResField string, p *startupPaTr) (update string, acts string, checks bool) {
+	fields := map[string]string{}
+	var actParts []string
+	updatesDone := true
+	for _, st := range cc.Body {
+		if checks {
+			// anything after the check that touches the counters would not be seen by it
+			switch st.(type) {
+			case *ast.AssignStmt, *ast.IncDecStmt:
+				updatesDone = false
+			}
+		}
+		switch v := st.(type) {
+		case *ast.IncDecStmt:
+			switch x.src(v.X) {
+			case recv + ".toWait":
+				// how many of the four results are still awaited: termination of the await loop, not a counter of instances
+			case recv + ".awaitedInstances":
+				if v.Tok == token.INC {
+					if _, dup := fields["awaited"]; dup {
+						x.fail(st, "second update of awaitedInstances")
+					}
+					fields["awaited"] = "a.awaited + 1"
+				} else {
+					fields["awaited"] = "a.awaited - 1"
+				}
+			default:
+				x.fail(st, "statement %s", x.src(st))
+			}
+		case *ast.AssignStmt:
+			if len(v.Lhs) != 1 || len(v.Rhs) != 1 || v.Tok != token.ASSIGN {
+				x.fail(st, "statement %s", x.src(st))
+				continue
+			}
+			switch x.src(v.Lhs[0]) {
+			case recv + "." + startResField:
+				if x.src(v.Rhs[0]) == "nil" {
+					fields["startFinished"] = "true"
+				} else {
+					x.fail(st, "statement %s", x.src(st))
+				}
+			case recv + ".startedInstances":
+				if x.src(v.Rhs[0]) == resName+".Started" {
+					fields["started"] = "resStarted"
+				} else {
+					fields["started"] = x.startupAwaitInt(v.Rhs[0], recv)
+				}
+			case recv + ".providerErr", recv + ".aggregatorErr":
+			default:
+				x.fail(st, "statement %s", x.src(st))
+			}
+		case *ast.ExprStmt:
+			if x.isLogCall(v.X) {
+				continue
+			}
+			if x.src(v.X) == recv+".checkAllInstancesAreFinished()" {
+				checks = true
+				continue
+			}
+			actParts = append(actParts, p.acts([]ast.Stmt{st}))
+		case *ast.IfStmt:
+			actParts = append(actParts, p.acts([]ast.Stmt{st}))
+		default:
+			x.fail(st, "statement %s", x.src(st))
+		}
+	}
+	checks = checks && updatesDone
+	var ups []string
+	for _, f := range []string{"awaited", "startFinished", "started"} {
+		if v, ok := fields[f]; ok {
+			ups = append(ups, f+" := "+v)
+		}
+	}
+	update = "a"
+	if len(ups) > 0 {
+		update = "{ a with " + strings.Join(ups, ", ") + " }"
+	}
+	acts = "[]"
+	if len(actParts) > 0 {
+		acts = "(" + strings.Join(actParts, " ++ ") + ")"
+	}
+	return
+}
+
+func (x *startupSup) awaitCounters(b *strings.Builder) {
+	// isStartFinished: `return ah.<field> == nil`
+	isf := startupFindMethod(x.pkg, "runAwaitHandle", "isStartFinished")
+	startResField := ""
+	if isf != nil && len(isf.Body.List) == 1 {
+		if rs, ok := isf.Body.List[0].(*ast.ReturnStmt); ok && len(rs.Results) == 1 {
+			if be, isB := rs.Results[0].(*ast.BinaryExpr); isB && be.Op == token.EQL && x.src(be.Y) == "nil" {
+				if sel, isSel := be.X.(*ast.SelectorExpr); isSel {
+					startResField = sel.Sel.Name
+				}
+			}
+		}
+	}
+	if startResField == "" {
+		x.t.errs = append(x.t.errs, "(*runAwaitHandle).isStartFinished is not `return ah.<channel field> == nil`")
+		return
+	}
+	// checkAllInstancesAreFinished
+	ca := startupFindMethod(x.pkg, "runAwaitHandle", "checkAllInstancesAreFinished")
+	if ca == nil {
+		x.t.errs = append(x.t.errs, "method (*runAwaitHandle).checkAllInstancesAreFinished not found")
+		return
+	}
+	recv := ca.Recv.List[0].Names[0].Name
+	local := map[string]ast.Expr{}
+	cond := ""
+	var rest []ast.Stmt
+	for i, st := range ca.Body.List {
+		if as, ok := st.(*ast.AssignStmt); ok && as.Tok == token.DEFINE && len(as.Lhs) == 1 && len(as.Rhs) == 1 {
+			local[x.src(as.Lhs[0])] = as.Rhs[0]
+			continue
+		}
+		if is, ok := st.(*ast.IfStmt); ok && is.Init == nil && is.Else == nil && len(is.Body.List) == 1 {
+			if rs, isR := is.Body.List[0].(*ast.ReturnStmt); isR && len(rs.Results) == 0 {
+				// `if !allFinished { return }`: what follows runs when the negation holds
+				cond = "(!" + x.startupAwaitCond(is.Cond, recv, local) + ")"
+				rest = ca.Body.List[i+1:]
+				break
+			}
+		}
+		x.fail(st, "checkAllInstancesAreFinished: statement before the guard %s", x.src(st))
+	}
+	if cond == "" {
+		x.fail(ca, "checkAllInstancesAreFinished: guard `if !<all finished> { return }` not found")
+		return
+	}
+	// what it does once everything has finished: which contexts it cancels
+	var cancels []string
+	for _, st := range rest {
+		ast.Inspect(st, func(n ast.Node) bool {
+			c, ok := n.(*ast.CallExpr)
+			if !ok {
+				return true
+			}
+			if sel, isSel := c.Fun.(*ast.SelectorExpr); isSel && x.src(sel.X) == recv {
+				if r, has := x.fieldRole[sel.Sel.Name]; has && strings.HasSuffix(sel.Sel.Name, "Cancel") {
+					cancels = append(cancels, "PoolAct.cancel "+r)
+				}
+			}
+			return true
+		})
+	}
+	b.WriteString("/-- regenerated from `core/engine/engine.go` `(*runAwaitHandle).checkAllInstancesAreFinished`: the condition under which\nit goes on (a: the counters of the await loop; `a.startFinished` is `ah.isStartFinished()`, i.e. `ah." + startResField + " == nil`) -/\n")
+	b.WriteString("def allFinished (a : Await) : Bool := " + cond + "\n\n")
+	b.WriteString("/-- regenerated from `checkAllInstancesAreFinished`: the contexts it cancels once everything has finished -/\n")
+	b.WriteString("def onAllFinished : List PoolAct := [" + strings.Join(cancels, ", ") + "]\n\n")
+
+	fd := startupFindMethod(x.pkg, "runAwaitHandle", "awaitRun")
+	if fd == nil {
+		return
+	}
+	recv = fd.Recv.List[0].Names[0].Name
+	mk := func(resName string) *startupPaTr {
+		p := &startupPaTr{x: x}
+		p.atom = func(e ast.Expr) (string, bool) {
+			if c, ok := e.(*ast.CallExpr); ok && x.src(c.Fun) == "errutil.IsCtxError" && len(c.Args) == 2 && x.src(c.Args[1]) == resName+".Err" {
+				if sel, isSel := c.Args[0].(*ast.SelectorExpr); isSel && x.src(sel.X) == recv {
+					if r, has := x.fieldRole[sel.Sel.Name]; has {
+						return "(isCtxErr " + r + ")", true
+					}
+				}
+			}
+			return "", false
+		}
+		p.calls = func(c *ast.CallExpr) (string, bool) {
+			sel, ok := c.Fun.(*ast.SelectorExpr)
+			if !ok || x.src(sel.X) != recv {
+				return "", false
+			}
+			if sel.Sel.Name == "onErrAwaited" {
+				return "[PoolAct.reportErr]", true
+			}
+			if r, has := x.fieldRole[sel.Sel.Name]; has && strings.HasSuffix(sel.Sel.Name, "Cancel") && len(c.Args) == 0 {
+				return "[PoolAct.cancel " + r + "]", true
+			}
+			return "", false
+		}
+		p.doneRole = func(ast.Expr) (string, bool) { return "", false }
+		return p
+	}
+	// case res := <-ah.startRes
+	if cc, resName := x.startupCaseOf(fd, recv, startResField); cc != nil {
+		up, acts, checks := x.startupCaseUpdate(cc, recv, resName, startResField, mk(resName))
+		b.WriteString("/-- regenerated from `(*runAwaitHandle).awaitRun`, case `" + resName + " := <-" + recv + "." + startResField + "`: the counters after the result of\n`startInstances` has been received (resStarted: `" + resName + ".Started`) -/\n")
+		b.WriteString("def onStartResAwait (a : Await) (resStarted : Int) : Await := " + up + "\n\n")
+		b.WriteString("/-- regenerated from the same case: what the pool does with the error of `startInstances` -/\n")
+		b.WriteString("def onStartResult (isCtxErr : Ctx → Bool) : List PoolAct :=\n  " + acts + "\n\n")
+		b.WriteString("/-- regenerated from the same case: `checkAllInstancesAreFinished()` is called, unconditionally, after the counters were updated -/\n")
+		b.WriteString(fmt.Sprintf("def startResChecksAll : Bool := %v\n\n", checks))
+	} else {
+		x.fail(fd, "case res := <-%s.%s not found", recv, startResField)
+	}
+	// case res := <-ah.runRes: the counters only (what is done with the result is `onInstanceResult`)
+	if cc, resName := x.startupCaseOf(fd, recv, "runRes"); cc != nil {
+		p := mk(resName)
+		inner := p.atom
+		p.atom = func(e ast.Expr) (string, bool) {
+			switch x.src(e) {
+			case resName + ".Err == outOfAmmoErr", resName + ".Err != outOfAmmoErr", recv + ".isStartFinished()":
+				return "true", true
+			}
+			return inner(e)
+		}
+		up, _, checks := x.startupCaseUpdate(cc, recv, resName, startResField, p)
+		b.WriteString("/-- regenerated from `awaitRun`, case `" + resName + " := <-" + recv + ".runRes`: the counters after the result of an instance has been received -/\n")
+		b.WriteString("def onRunResAwait (a : Await) : Await := " + up + "\n\n")
+		b.WriteString("/-- regenerated from the same case: `checkAllInstancesAreFinished()` is called, unconditionally, after the counters were updated -/\n")
+		b.WriteString(fmt.Sprintf("def runResChecksAll : Bool := %v\n\n", checks))
+	}
+}
+
+func (x *startupSup) finishCallback(b *strings.Builder, builderArgs [2]string) {
+	fd := startupFindMethod(x.pkg, "instancePool", "buildNewInstanceSchedule")
 	if fd == nil {
 		x.t.errs = append(x.t.errs, "method (*instancePool).buildNewInstanceSchedule not found")
 		return
@@ -932,7 +1224,7 @@ func (x *sup) finishCallback(b *strings.Builder, builderArgs [2]string) {
 	}
 	b.WriteString("/-- regenerated from `core/engine/engine.go` `(*instancePool).buildNewInstanceSchedule`: is the finish callback installed on\nthe RPS schedule the instances get? (not for per-instance schedules) -/\n")
 	b.WriteString("def callbackInstalled (perInstance : Bool) : Bool := if perInstance then false else true\n\n")
-	p := &paTr{x: x}
+	p := &startupPaTr{x: x}
 	p.atom = func(ast.Expr) (string, bool) { return "", false }
 	p.calls = func(c *ast.CallExpr) (string, bool) {
 		if x.obj(c.Fun) == cancelP && len(c.Args) == 0 {
@@ -961,12 +1253,12 @@ func (x *sup) finishCallback(b *strings.Builder, builderArgs [2]string) {
 
 // ---------------------------------------------------------------- coreutil: callback schedule, IsFinished
 
-func (x *sup) coreutilPart(b *strings.Builder) {
+func (x *startupSup) coreutilPart(b *strings.Builder) {
 	cu := load("github.com/yandex/pandora/core/coreutil")
-	cx := &sup{t: x.t, pkg: cu}
+	cx := &startupSup{t: x.t, pkg: cu}
 	// (*callbackOnFinishSchedule).Next / Left: `if COND { s.onFinishOnce.Do(s.onFinish) }`
 	for _, m := range []struct{ name, param, ty string }{{"Next", "ok", "Bool"}, {"Left", "left", "Int"}} {
-		fd := suFindMethod(cu, "callbackOnFinishSchedule", m.name)
+		fd := startupFindMethod(cu, "callbackOnFinishSchedule", m.name)
 		if fd == nil {
 			x.t.errs = append(x.t.errs, "method (*callbackOnFinishSchedule)."+m.name+" not found")
 			continue
@@ -1001,7 +1293,7 @@ func (x *sup) coreutilPart(b *strings.Builder) {
 		b.WriteString("def callbackOn" + m.name + " (" + m.param + " : " + m.ty + ") : Bool := " + lean + "\n\n")
 	}
 	// (*Waiter).IsFinished: select { case <-ctx.Done(): return A; default: return B }
-	fd := suFindMethod(cu, "Waiter", "IsFinished")
+	fd := startupFindMethod(cu, "Waiter", "IsFinished")
 	okShape := false
 	if fd != nil && len(fd.Body.List) == 1 {
 		if sel, isSel := fd.Body.List[0].(*ast.SelectStmt); isSel && len(sel.Body.List) == 2 {
@@ -1031,8 +1323,8 @@ func (x *sup) coreutilPart(b *strings.Builder) {
 
 // ---------------------------------------------------------------- (*instance).Run
 
-func (x *sup) instanceRun(b *strings.Builder) {
-	fd := suFindMethod(x.pkg, "instance", "Run")
+func (x *startupSup) instanceRun(b *strings.Builder) {
+	fd := startupFindMethod(x.pkg, "instance", "Run")
 	if fd == nil {
 		x.t.errs = append(x.t.errs, "method (*instance).Run not found")
 		return
@@ -1198,7 +1490,7 @@ func (x *sup) instanceRun(b *strings.Builder) {
 				return bodyTr(rest, ind)
 			}
 		case *ast.IfStmt:
-			if !hasReturn(v) {
+			if !startupHasReturn(v) {
 				return bodyTr(rest, ind) // logging / shoot-or-discard: no exit
 			}
 			if v.Init == nil && v.Else == nil && len(v.Body.List) > 0 {
@@ -1221,11 +1513,12 @@ func (x *sup) instanceRun(b *strings.Builder) {
 func startupExtra(t *tr) string {
 	var b strings.Builder
 	b.WriteString("open Pandora.Go.C12\n\n")
-	x := &sup{t: t, pkg: t.pkg, ctxRole: map[types.Object]string{}, cancelRole: map[types.Object]string{}, fieldRole: map[string]string{}}
+	x := &startupSup{t: t, pkg: t.pkg, ctxRole: map[types.Object]string{}, cancelRole: map[types.Object]string{}, fieldRole: map[string]string{}}
 	startArgs, builderArgs, ok := x.roles(&b)
 	if ok {
 		x.startInstances(&b, startArgs)
 		x.awaitRun(&b)
+		x.awaitCounters(&b)
 		x.finishCallback(&b, builderArgs)
 	}
 	x.passThrough(&b)
